@@ -1,4 +1,71 @@
+import BobModel.Model.FileIndex
+import BobModel.Util.Sha1
 import BobModel.Util.Proto
-open Lean Proto
-/-- stub driver of C11: replaced when the model of this property is built -/
-def main : IO Unit := runPure fun _ => err "unsupported"
+open Lean Proto DirHash
+
+/-
+requests (all byte strings hex encoded):
+ {"op":"hashdir",  "entries":[node..], "index": hex|null}
+ {"op":"hashpath", "node": node,       "index": hex|null}
+ {"op":"binstat",  "st":[ctime_ns, mtime_ns, dev, ino, size], "m": mode}
+ node = {"n": name, "m": st_mode, "d": content | link target, "r": st_rdev, "e": [node..],
+         "st": [ctime_ns, mtime_ns, dev, ino, size]}          ("e" in scandir order)
+replies:
+ {"uncached": hex, "cached": hex, "index": hex | null}   index = new cache.bin, null = file not replaced
+-/
+
+def getInt (j : Json) : Int :=
+  match j.getInt? with
+  | .ok v => v
+  | _ => 0
+
+def statOfJson (j : Json) (mode : Nat) : Stat :=
+  match getArr j "st" with
+  | [ct, mt, dev, ino, size] => ⟨getInt ct, getInt mt, (getInt dev).toNat, (getInt ino).toNat, mode, (getInt size).toNat⟩
+  | _ => ⟨0, 0, 0, 0, mode, 0⟩
+
+/-- JSON → (tree, stat table keyed by the index name of the node) -/
+partial def nodeOf (path : Bytes) (j : Json) : Tree × List (Bytes × Stat) :=
+  let mode := getNat j "m"
+  let kids := (getArr j "e").map fun c =>
+    let n := hexBytes c "n"
+    (n, nodeOf (joinPath path n) c)
+  let forest := Forest.ofList (kids.map fun (n, r) => (n, r.1))
+  let t := Tree.ofRaw mode (hexBytes j "d") (getNat j "r") forest
+  -- a non-directory has no children even if the request carries some
+  let stats := if t.isDir then kids.flatMap (fun (_, r) => r.2) else []
+  (t, (path, statOfJson j mode) :: stats)
+
+def lookupStat (tab : List (Bytes × Stat)) (p : Bytes) : Stat :=
+  match tab.lookup p with
+  | some s => s
+  | none => ⟨0, 0, 0, 0, 0, 0⟩
+
+def oldIndex (j : Json) : Option Bytes :=
+  match j.getObjVal? "index" with
+  | .ok (.str s) => Bytes.ofHex s
+  | _ => none
+
+def reply (unc : Bytes) (r : Bytes × Option (List Rec)) : Json :=
+  Json.mkObj [("uncached", Json.str (Bytes.toHex unc)), ("cached", Json.str (Bytes.toHex r.1)),
+    ("index", match r.2 with
+      | some l => Json.str (Bytes.toHex (encodeIndex l))
+      | none => Json.null)]
+
+def main : IO Unit := runPure fun j =>
+  let H := Sha1.hashBytes
+  match getStr j "op" with
+  | "hashdir" =>
+    let root := Json.mkObj [("m", Json.num 0o040755), ("e", Json.arr (getArr j "entries").toArray)]
+    match nodeOf [] root with
+    | (.dir _ es, tab) =>
+      let unc := ((es.canon.walk H nullCheck (lookupStat tab) [] ()).1)
+      reply (H unc) (hashDirCached H (lookupStat tab) (parseIndex (oldIndex j)) es)
+    | _ => err "not-a-directory"
+  | "hashpath" =>
+    let (t, tab) := nodeOf [] (j.getObjValD "node")
+    let unc := (t.canon.walk H nullCheck (lookupStat tab) [] ()).1
+    reply unc (hashPathCached H (lookupStat tab) (parseIndex (oldIndex j)) t)
+  | "binstat" =>
+    Json.str (Bytes.toHex (binStat (statOfJson j (getNat j "m"))))
+  | _ => err "bad-op"
